@@ -15,6 +15,7 @@ import DtailModel.Model.Color
 import DtailModel.Model.Command
 import DtailModel.Model.Base64
 import DtailModel.Model.Auth
+import DtailModel.Model.KnownHosts
 open Dtail
 
 structure Res where
@@ -400,6 +401,45 @@ def opC09Health : List String → Res
     | none => bad
   | _ => bad
 
+/-! C17 -/
+
+def parseNewHosts (s : String) : Option (List NewHost) :=
+  if s = "-" then some [] else
+  (s.splitOn ";").mapM fun h => match (h.splitOn ",").mapM unhex with
+    | some [hl, il, a1, a2] => some ⟨hl, il, [a1, a2]⟩
+    | _ => none
+
+def opC17Trust : List String → Res
+  | [old, _hosts, oracle] => match unhex old, parseNewHosts oracle with
+    | some old, some hosts =>
+      let out := trustHostsFile 65536 hosts old
+      let oldLines := scanLinesLimit 65536 old
+      let raw := scanLinesLimit.scanLinesRaw old
+      let replaced := oldLines.filter (fun l => (hosts.flatMap (·.addrs)).contains (lineAddress l))
+      -- specification: new entries, then every old line not being replaced, each once, in order
+      let spec := (hosts.flatMap (fun h => [h.hostLine, h.ipLine]) ++
+                   (raw.map dropCR).filter (fun l => !(hosts.flatMap (·.addrs)).contains (lineAddress l))).flatMap (· ++ [NL])
+      { m := hexOf out ++ ";tmpleft=false", s := hexOf spec ++ ";tmpleft=false",
+        g := if raw.any (fun l => l.length ≥ 65536) then "long-line" else "-",
+        t := joinWith "," ((if !hosts.isEmpty then ["newhost"] else []) ++ (if !replaced.isEmpty then ["replaced"] else [])
+          ++ (if oldLines.any (fun l => l.head? = some 124) then ["hashed"] else [])
+          ++ (if oldLines.any (fun l => l.head? = some 35) then ["comment"] else [])
+          ++ (if old.contains 13 then ["crlf"] else []) ++ (if old.getLast? ≠ some NL ∧ !old.isEmpty then ["nofinalnl"] else [])) }
+    | _, _ => bad
+  | _ => bad
+
+def opC17Wrap : List String → Res
+  | [state, trustAll, answers] =>
+    let st := if state = "known" then HostState.known else if state = "changed" then .changed else .unknown
+    let ans := (answers.splitOn ",").map str
+    let v := wrapDecision st (trustAll = "1") ans
+    let r := match v with
+      | .proceed => s!"proceed;untrusted=false;recorded=true;keptother=true"
+      | .refuse => s!"refuse;untrusted=true;recorded=false;keptother=true"
+      | .waiting => "timeout;untrusted=false;recorded=false;keptother=true"
+    { m := r, s := r, t := s!"{state},{if trustAll = "1" then "trustall" else "ask"}" }
+  | _ => bad
+
 def dispatch (line : String) : Res :=
   match (line.splitOn " ").filter (· ≠ "") with
   | "c01.reader" :: a => opC01Reader a
@@ -416,6 +456,8 @@ def dispatch (line : String) : Res :=
   | "c11.parse" :: a => opC11Parse a
   | "c16.colorfy" :: a => opC16Colorfy a
   | "c16.write" :: a => opC16Write a
+  | "c17.trust" :: a => opC17Trust a
+  | "c17.wrap" :: a => opC17Wrap a
   | "c18.list" :: a => opC18List a
   | "c18.file" :: a => opC18File a
   | _ => bad
